@@ -60,8 +60,36 @@ def planted_shortcut(rng, dims, n):
     return None
 
 
-def gen_instance(rng, entry, kind, dims=None, boundary_ray=False):
+def planted_centred(rng, entry):
+    """strictly feasible bounded problem whose constraint set is symmetric about the origin: G = [M; -M] (and optionally
+    the unit ball as a 'q' block), so that G'e = 0 for the cone identity e and the default least-squares start has a
+    strictly interior slack with x = 0 - the configuration in which conelp's iteration-0 statistics matter"""
+    n = rng.randint(1, 4)
+    k = rng.randint(n, n + 2)
+    for _ in range(20):
+        Mx = gp.rand_sv_matrix(rng, k, n)
+        if np.linalg.svd(Mx, compute_uv=False)[-1] >= 0.2:
+            break
+    else:
+        return None
+    hb = np.array([rng.uniform(0.5, 3.0) for _ in range(k)])
+    G = np.vstack([Mx, -Mx]); h = np.concatenate([hb, hb])
+    q = []
+    if entry in ("conelp", "socp") and rng.random() < 0.4:
+        q = [n + 1]
+        G = np.vstack([G, np.zeros((1, n)), -np.eye(n)]); h = np.concatenate([h, [rng.uniform(1.0, 3.0)], np.zeros(n)])
+    c = np.array([rng.uniform(-2, 2) for _ in range(n)])
+    pr = gp.Prob(c=c, G=G, h=h, A=np.zeros((0, n)), b=np.zeros(0), dims=Dims(2 * k, q, []), kind="feasible")
+    pr.pl = {}
+    return pr
+
+
+def gen_instance(rng, entry, kind, dims=None, boundary_ray=False, centred=False):
     """returns Prob or None"""
+    if centred and kind == "feasible" and dims is None and entry in ("lp", "conelp", "socp") and rng.random() < 0.06:
+        pr = planted_centred(rng, entry)
+        if pr is not None:
+            return pr
     if kind == "feasible" and dims is None and entry in ("lp", "conelp") and rng.random() < (0.25 if entry == "lp" else 0.08):
         return gp.planted_sparse_lp(rng)        # genuinely sparse pattern, n up to 12
     for _ in range(30):
@@ -239,7 +267,7 @@ def run_conelp_family(ctx, judge_status, mix, with_backends=True, op_fraction=0.
         kind = rng.choices(kinds, weights)[0]
         # a third of the unbounded instances have all their rays on the boundary of the recession cone (exact zeros
         # in the slack of every valid certificate): only certificates that are actually returned are judged
-        pr = gen_instance(rng, entry, kind, boundary_ray=(kind == "dinf" and rng.random() < 0.35))
+        pr = gen_instance(rng, entry, kind, boundary_ray=(kind == "dinf" and rng.random() < 0.35), centred=True)
         if pr is None:
             ctx.count("generator.none")
             return
